@@ -5,10 +5,10 @@ use serde_json::{json, Value as J};
 use std::collections::BTreeMap;
 use std::sync::atomic::{AtomicUsize, Ordering};
 use std::sync::Arc;
-use varpulis_runtime::persistence::{Checkpoint, MemoryStore, StateStore, StoreError};
+use varpulis_runtime::persistence::{Checkpoint, FileStore, MemoryStore, StateStore, StoreError};
 use varpulis_runtime::tenant::{TenantId, TenantManager, TenantQuota};
 
-struct Crashy { inner: Arc<MemoryStore>, writes: AtomicUsize, limit: usize }
+struct Crashy { inner: Arc<dyn StateStore>, writes: AtomicUsize, limit: usize, dir: Option<std::path::PathBuf> }
 impl Crashy { fn hit(&self) -> Result<(), StoreError> { let n = self.writes.fetch_add(1, Ordering::SeqCst); if n >= self.limit { Err(StoreError::IoError("process crashed (harness)".into())) } else { Ok(()) } } }
 impl StateStore for Crashy {
     fn save_checkpoint(&self, c: &Checkpoint) -> Result<(), StoreError> { self.hit()?; self.inner.save_checkpoint(c) }
@@ -16,7 +16,18 @@ impl StateStore for Crashy {
     fn load_checkpoint(&self, id: u64) -> Result<Option<Checkpoint>, StoreError> { self.inner.load_checkpoint(id) }
     fn list_checkpoints(&self) -> Result<Vec<u64>, StoreError> { self.inner.list_checkpoints() }
     fn prune_checkpoints(&self, k: usize) -> Result<usize, StoreError> { self.inner.prune_checkpoints(k) }
-    fn put(&self, k: &str, v: &[u8]) -> Result<(), StoreError> { self.hit()?; self.inner.put(k, v) }
+    fn put(&self, k: &str, v: &[u8]) -> Result<(), StoreError> {
+        if let Err(e) = self.hit() {
+            // on a real directory: the process dies inside FileStore::put after the temp file was written and before the rename
+            if let Some(d) = &self.dir {
+                let path = d.join(k.replace(':', std::path::MAIN_SEPARATOR_STR));
+                if let Some(parent) = path.parent() { let _ = std::fs::create_dir_all(parent); }
+                let _ = std::fs::write(path.with_extension("tmp"), v);
+            }
+            return Err(e);
+        }
+        self.inner.put(k, v)
+    }
     fn get(&self, k: &str) -> Result<Option<Vec<u8>>, StoreError> { self.inner.get(k) }
     fn delete(&self, k: &str) -> Result<(), StoreError> { self.hit()?; self.inner.delete(k) }
     fn flush(&self) -> Result<(), StoreError> { Ok(()) }
@@ -86,11 +97,18 @@ pub fn replay(args: &[String]) {
         let states = c["states"].as_array().unwrap();
         let small = json!({"hist": hist.iter().map(|h| json!([h["op"], h["t"], h["p"], h["src"]])).collect::<Vec<_>>()});
         rep.case(&small, true);
-        let mut limit = 0usize;
+        let mut k = 0usize;
         loop {
+            // crash point `limit`, in three modes: in-memory store; FileStore directory, retrying the crashed operation after the restart;
+            // FileStore directory, going on with the removals / reloads that follow it (creations are left out: after a skipped removal they
+            // would create a second pipeline of the same name, which this harness's by-name projection cannot tell apart)
+            let (limit, mode) = (k / 3, k % 3);
             let res = catch(|| rt.block_on(async {
-                let inner = Arc::new(MemoryStore::new());
-                let store = Arc::new(Crashy { inner: inner.clone(), writes: AtomicUsize::new(0), limit });
+                // every second crash point runs on a real FileStore directory (with the temp file a crashed put leaves behind)
+                let tmpdir = tempfile::tempdir().unwrap();
+                let on_disk = mode > 0;
+                let inner: Arc<dyn StateStore> = if on_disk { Arc::new(FileStore::open(tmpdir.path()).unwrap()) } else { Arc::new(MemoryStore::new()) };
+                let store = Arc::new(Crashy { inner: inner.clone(), writes: AtomicUsize::new(0), limit, dir: if on_disk { Some(tmpdir.path().to_path_buf()) } else { None } });
                 let mut m = TenantManager::with_store(store.clone());
                 let (mut ids, mut pids) = (BTreeMap::new(), BTreeMap::new());
                 let mut done = 0usize;              // operations fully acknowledged
@@ -108,9 +126,27 @@ pub fn replay(args: &[String]) {
                 }
                 let mut m2 = TenantManager::with_store(inner.clone());
                 let rec_ok = m2.recover().is_ok();
-                (done, crashed_in, op_failed, rec_ok, norm(&snap(&m2)), store.writes.load(Ordering::SeqCst))
+                let rec = norm(&snap(&m2));
+                // life goes on after the restart: when the in-flight operation left no trace, the rest of the history is applied to the
+                // recovered manager (every step must be acknowledged and show the model's state) and a second restart must show the end state
+                let mut second: Option<(bool, J)> = None;
+                let acked_now = if done == 0 { None } else { Some(norm(&model_snap(&states[done - 1]))) };
+                if let (Some(ci), true) = (crashed_in, rec_ok) {
+                    if acked_now.as_ref().map(|a| a == &rec).unwrap_or(rec.is_empty()) {
+                        // (an operation the recovered manager refuses is simply not acknowledged; what counts is that everything the
+                        // manager shows after the acknowledged ones is what a second restart shows)
+                        let mut nack = 0;
+                        for op in hist.iter().skip(if mode == 2 { ci + 1 } else { ci }).filter(|o| mode != 2 || matches!(o["op"].as_str(), Some("remove") | Some("delete_tenant") | Some("reload"))) { if apply(&mut m2, &mut ids, &mut pids, op).await { nack += 1; } else { break; } }   // stop at the first refusal: later operations of the history assume it
+                        let live = norm(&snap(&m2));
+                        let mut m3 = TenantManager::with_store(inner.clone());
+                        let ok3 = m3.recover().is_ok();
+                        let rec3 = norm(&snap(&m3));
+                        second = Some((ok3 && rec3 == live, json!({"acknowledged_after_restart": nack, "live": live, "recover_ok": ok3, "recovered": rec3})));
+                    }
+                }
+                (done, crashed_in, op_failed, rec_ok, rec, store.writes.load(Ordering::SeqCst), second)
             }));
-            let (done, crashed_in, op_failed, rec_ok, rec, writes) = match res { Ok(x) => x, Err(p) => { rep.violation(&["C22"], &format!("tenant manager panicked: {p}"), &small, J::Null, J::Null); break; } };
+            let (done, crashed_in, op_failed, rec_ok, rec, writes, second) = match res { Ok(x) => x, Err(p) => { rep.violation(&["C22"], &format!("tenant manager panicked: {p}"), &small, J::Null, J::Null); break; } };
             rep.count("crash_points", 1);
             if let Some(i) = op_failed {
                 rep.violation(&["C22", "C28"], "an accepted management operation failed or left another state than acknowledged (no crash involved)", &json!({"hist": small["hist"], "op_index": i}), J::Null, J::Null);
@@ -125,8 +161,13 @@ pub fn replay(args: &[String]) {
                               json!({"acknowledged": acked, "in_flight_applied": inflight}), json!({"recover_ok": rec_ok, "recovered": rec}));
                 break;
             }
+            if let Some((false, got)) = second {
+                rep.violation(&["C22"], "after a crash and restart, what the manager acknowledged and shows does not survive a second restart", &json!({"hist": small["hist"], "crash_after_write": limit}), json!("second restart shows the live state"), got);
+                break;
+            }
+            if second.is_some() { rep.count("continued_after_restart", 1); }
             if crashed_in.is_none() && writes <= limit { break; }   // the whole history ran without reaching the crash point
-            limit += 1;
+            k += 1;
             if limit > 200 { break; }
         }
     }
